@@ -131,10 +131,10 @@ func ruleLOCK(c *Ctx) {
 	muts := w.mutatorMethods()
 	lockers := map[string]bool{}
 	type mi struct {
-		fd             *ast.FuncDecl
-		reads, writes  []string
-		first, second  string
-		recvObj        types.Object
+		fd            *ast.FuncDecl
+		reads, writes []string
+		first, second string
+		recvObj       types.Object
 	}
 	var infos []*mi
 	for _, fd := range ci.Methods {
@@ -215,12 +215,57 @@ func ruleLOCK(c *Ctx) {
 			return true
 		})
 	}
+	// callers of each method (within the methods of the type)
+	callersOf := func(name string) []*mi {
+		var out []*mi
+		for _, m := range infos {
+			if containsNode(m.fd.Body, func(n ast.Node) bool {
+				call, ok := n.(*ast.CallExpr)
+				if !ok {
+					return false
+				}
+				se, ok := call.Fun.(*ast.SelectorExpr)
+				if !ok || se.Sel.Name != name {
+					return false
+				}
+				id, ok := ast.Unparen(se.X).(*ast.Ident)
+				return ok && p.TypesInfo.Uses[id] == m.recvObj
+			}) {
+				out = append(out, m)
+			}
+		}
+		return out
+	}
+	// a method that calls a writing helper is itself a writer
+	for iter := 0; iter < 3; iter++ {
+		for _, h := range infos {
+			if len(h.writes) == 0 || h.first != "" {
+				continue
+			}
+			for _, cm := range callersOf(h.fd.Name.Name) {
+				cm.writes = append(cm.writes, "calls writing helper "+h.fd.Name.Name)
+				cm.writes = dedupStrings(cm.writes)
+			}
+		}
+	}
 	for _, m := range infos {
 		key := "Compiled." + m.fd.Name.Name
 		if len(m.reads) == 0 && len(m.writes) == 0 {
 			continue
 		}
 		var probs []string
+		if m.first == "" && !ast.IsExported(m.fd.Name.Name) {
+			// unexported helper: acceptable when every caller holds the lock it needs
+			cs := callersOf(m.fd.Name.Name)
+			good := len(cs) > 0
+			for _, cm := range cs {
+				if cm.first == "" || (len(m.writes) > 0 && cm.first != "Lock") {
+					good = false
+				}
+			}
+			c.check(good, key, m.fd, fmt.Sprintf("helper called only with the lock held (%d caller(s))", len(cs)), "unexported method touches protected fields ("+strings.Join(dedupStrings(m.reads), ",")+") without the lock and is not called exclusively from methods that hold it")
+			continue
+		}
 		if m.first == "" {
 			probs = append(probs, "touches protected fields ("+strings.Join(dedupStrings(m.reads), ",")+") but its first statement does not take the lock")
 		} else {
@@ -264,13 +309,13 @@ func ruleLOCK(c *Ctx) {
 // ---------------------------------------------------------------- REC / ABORT
 
 type runCtxInfo struct {
-	Fn      *ast.FuncDecl
-	Go      *ast.GoStmt
-	GoLit   *ast.FuncLit
-	Ch      types.Object
-	VMVar   types.Object
-	After   []ast.Stmt // statements after the go statement
-	err     string
+	Fn    *ast.FuncDecl
+	Go    *ast.GoStmt
+	GoLit *ast.FuncLit
+	Ch    types.Object
+	VMVar types.Object
+	After []ast.Stmt // statements after the go statement
+	err   string
 }
 
 // runContext finds the method of Compiled that starts VM.Run in a goroutine.
@@ -648,52 +693,54 @@ func ruleABORT(c *Ctx) {
 		c.anchor("context-aware run method: " + ri.err)
 		return
 	}
-	// ABORT.4: the VM is made by NewVM in the same function (fresh per run) in every method that calls Run
-	ci := w.compiled()
-	for _, fd := range ci.Methods {
-		ast.Inspect(fd.Body, func(nd ast.Node) bool {
-			call, ok := nd.(*ast.CallExpr)
-			if !ok {
-				return true
-			}
-			fn := Callee(p, call)
-			if !isMethodOf(fn, p.Types, "VM", "Run") && !isMethodOf(fn, p.Types, "VM", "Abort") {
-				return true
-			}
-			se := call.Fun.(*ast.SelectorExpr)
-			id, ok := ast.Unparen(se.X).(*ast.Ident)
-			fresh := false
-			if ok {
-				obj := p.TypesInfo.Uses[id]
-				nDefs := 0
-				ast.Inspect(fd.Body, func(m ast.Node) bool {
-					as, ok := m.(*ast.AssignStmt)
-					if !ok {
-						return true
-					}
-					for i, l := range as.Lhs {
-						lid, ok := l.(*ast.Ident)
-						if !ok || (p.TypesInfo.Defs[lid] != obj && p.TypesInfo.Uses[lid] != obj) {
-							continue
+	ruleFRESHVMbody(c, "ABORT.4")
+	if false {
+		ci := w.compiled()
+		for _, fd := range ci.Methods {
+			ast.Inspect(fd.Body, func(nd ast.Node) bool {
+				call, ok := nd.(*ast.CallExpr)
+				if !ok {
+					return true
+				}
+				fn := Callee(p, call)
+				if !isMethodOf(fn, p.Types, "VM", "Run") && !isMethodOf(fn, p.Types, "VM", "Abort") {
+					return true
+				}
+				se := call.Fun.(*ast.SelectorExpr)
+				id, ok := ast.Unparen(se.X).(*ast.Ident)
+				fresh := false
+				if ok {
+					obj := p.TypesInfo.Uses[id]
+					nDefs := 0
+					ast.Inspect(fd.Body, func(m ast.Node) bool {
+						as, ok := m.(*ast.AssignStmt)
+						if !ok {
+							return true
 						}
-						nDefs++
-						if i < len(as.Rhs) {
-							if rc, ok := as.Rhs[i].(*ast.CallExpr); ok {
-								if rf := Callee(p, rc); rf != nil && rf.Name() == "NewVM" {
-									fresh = true
+						for i, l := range as.Lhs {
+							lid, ok := l.(*ast.Ident)
+							if !ok || (p.TypesInfo.Defs[lid] != obj && p.TypesInfo.Uses[lid] != obj) {
+								continue
+							}
+							nDefs++
+							if i < len(as.Rhs) {
+								if rc, ok := as.Rhs[i].(*ast.CallExpr); ok {
+									if rf := Callee(p, rc); rf != nil && rf.Name() == "NewVM" {
+										fresh = true
+									}
 								}
 							}
 						}
+						return true
+					})
+					if nDefs != 1 {
+						fresh = false
 					}
-					return true
-				})
-				if nDefs != 1 {
-					fresh = false
 				}
-			}
-			c.check(fresh, "ABORT.4/Compiled."+fd.Name.Name+"/"+fn.Name(), call, "VM made by NewVM in the same call (an abort cannot leak into a later run)", "VM."+fn.Name()+" is invoked on a VM that is not freshly made by NewVM in this call")
-			return true
-		})
+				c.check(fresh, "ABORT.4/Compiled."+fd.Name.Name+"/"+fn.Name(), call, "VM made by NewVM in the same call (an abort cannot leak into a later run)", "VM."+fn.Name()+" is invoked on a VM that is not freshly made by NewVM in this call")
+				return true
+			})
+		}
 	}
 	// ABORT.3: in the ctx.Done arm, Abort() precedes the receive
 	var doneClause *ast.CommClause
@@ -742,4 +789,77 @@ func ruleABORT(c *Ctx) {
 		return fn != nil && fn.Name() == "Err" && fn.Pkg() != nil && fn.Pkg().Path() == "context"
 	})
 	c.check(retErr, "ABORT.3/returns-ctx-err", doneClause, "result is ctx.Err()", "the ctx.Done arm does not report ctx.Err()")
+}
+
+// FRESHVM: every run of a Compiled uses a VM made by NewVM in the same call,
+// so no VM state (abort flag, error, stack, frames) survives from one run to
+// the next.
+func ruleFRESHVM(c *Ctx) { ruleFRESHVMbody(c, "FRESHVM") }
+
+func ruleFRESHVMbody(c *Ctx, prefix string) {
+	w := c.W
+	p := w.Root
+	ci := w.compiled()
+	if ci == nil {
+		c.anchor("Compiled")
+		return
+	}
+	n := 0
+	for _, fd := range ci.Methods {
+		ast.Inspect(fd.Body, func(nd ast.Node) bool {
+			call, ok := nd.(*ast.CallExpr)
+			if !ok {
+				return true
+			}
+			fn := Callee(p, call)
+			if !isMethodOf(fn, p.Types, "VM", "Run") && !isMethodOf(fn, p.Types, "VM", "Abort") {
+				return true
+			}
+			n++
+			se := call.Fun.(*ast.SelectorExpr)
+			id, ok := ast.Unparen(se.X).(*ast.Ident)
+			fresh := false
+			if ok {
+				obj := p.TypesInfo.Uses[id]
+				nDefs := 0
+				ast.Inspect(fd.Body, func(m ast.Node) bool {
+					as, ok := m.(*ast.AssignStmt)
+					if !ok {
+						return true
+					}
+					for i, l := range as.Lhs {
+						lid, ok := l.(*ast.Ident)
+						if !ok || (p.TypesInfo.Defs[lid] != obj && p.TypesInfo.Uses[lid] != obj) {
+							continue
+						}
+						nDefs++
+						if i < len(as.Rhs) {
+							if rc, ok := as.Rhs[i].(*ast.CallExpr); ok {
+								if rf := Callee(p, rc); rf != nil && rf.Name() == "NewVM" {
+									fresh = true
+								}
+							}
+						}
+					}
+					return true
+				})
+				if nDefs != 1 {
+					fresh = false
+				}
+			}
+			c.check(fresh, prefix+"/Compiled."+fd.Name.Name+"/"+fn.Name(), call, "VM made by NewVM in the same call (no VM state - abort flag, error, stack - survives into a later run)", "VM."+fn.Name()+" is invoked on a VM that is not freshly made by NewVM in this call: state of an earlier run (a late abort, a stored error) leaks into later runs of the same compiled object")
+			return true
+		})
+	}
+	// no VM is kept in a field of Compiled
+	if st, ok := p.Types.Scope().Lookup("Compiled").Type().Underlying().(*types.Struct); ok {
+		for i := 0; i < st.NumFields(); i++ {
+			if tn, _ := namedName(st.Field(i).Type()); tn == "VM" {
+				c.fail(prefix+"/Compiled-holds-VM/"+st.Field(i).Name(), nil, "Compiled keeps a VM in field "+st.Field(i).Name()+": VM state outlives a run")
+			}
+		}
+	}
+	if n < 3 {
+		c.fail(prefix+"/count", nil, "expected Run and Abort calls in the run methods")
+	}
 }
